@@ -446,7 +446,7 @@ class HeavyHitters:
         else:
             threshold = np.uint64(threshold)
 
-        if (self.n_added_sort < self.n_added()) or (self.threshold_sort != threshold):
+        if (self.n_added_sort != self.n_added()) or (self.threshold_sort != threshold):
             self.generate_candidate_set(threshold)
 
         return self.candidate_set.most_common(k)
@@ -595,6 +595,8 @@ class HeavyHitters:
             other.key_lens,
             other.n_added_records,
         )
+        # n_added() wraps modulo 2**64, so it cannot vouch for the cached candidate set
+        self.n_added_sort = None
 
     def save(self, filename: Union[str, Path]) -> None:
         """
